@@ -441,7 +441,7 @@ pub fn assemble(r: &mut Rng, max_plain: usize, max_streams: usize) -> GenFile {
 }
 
 /// the shapes the C01 statement names explicitly (and a few neighbours)
-pub const N_EDGE: u64 = 14;
+pub const N_EDGE: u64 = 15;
 
 pub fn edge_case(idx: u64, r: &mut Rng) -> GenFile {
     let n = 1100 + r.usize_below(3000);
@@ -552,6 +552,36 @@ pub fn edge_case(idx: u64, r: &mut Rng) -> GenFile {
             let mut v = a;
             v.extend(b);
             ("zlib immediately followed by gzip", v)
+        }
+        13 => {
+            // an IDAT run whose 4-byte length field begins inside the previously accepted stream: a
+            // zlib-wrapped stored block whose data ends with 00 00, then LL LL "IDAT" ...
+            let dn = 1100 + r.usize_below(900);
+            let mut data = r.bytes(dn);
+            data.extend_from_slice(&[0, 0]);
+            let mut v = vec![0x78, 0x01, 0x01];
+            v.extend_from_slice(&(data.len() as u16).to_le_bytes());
+            v.extend_from_slice(&(!(data.len() as u16)).to_le_bytes());
+            v.extend_from_slice(&data);
+            let pn = 1200 + r.usize_below(2000);
+            let p2 = r.bytes(pn);
+            let d2 = crate::comp::zlib_raw(&p2, 1, 0, 15, 8, &[]).unwrap();
+            let z2 = zlib_wrap(&d2, &p2, 0x01);
+            let overlap = 1 + r.usize_below(3); // how many bytes of the length field lie inside the stream
+            let len_be = (z2.len() as u32).to_be_bytes();
+            if len_be[..overlap].iter().all(|&b| b == 0) {
+                v.extend_from_slice(&len_be[overlap..]);
+            } else {
+                v.extend_from_slice(&len_be);
+            }
+            let mut chunk = b"IDAT".to_vec();
+            chunk.extend_from_slice(&z2);
+            let c = crc32(&chunk);
+            v.extend_from_slice(&chunk);
+            v.extend_from_slice(&c.to_be_bytes());
+            let k = r.usize_below(40);
+            v.extend(r.bytes(k));
+            ("png: IDAT length field overlapping the end of the previous stream", v)
         }
         _ => {
             // file consisting only of signature bytes
